@@ -103,12 +103,12 @@ class Concretiser:
         key = tuple(t["id"])
         self.mark((key, "t"))
         k = t["k"]
-        if k in ("func", "paren", "brack"):
-            self.emit({"func": t["v"] + "(", "paren": "(", "brack": "["}[k])
+        if k in ("func", "paren", "brack", "curly"):
+            self.emit({"func": t["v"] + "(", "paren": "(", "brack": "[", "curly": "{"}[k])
             self.toks(t["a"])
             self.free_ws(0.2)
             self.mark((key, "x"))
-            self.emit("]" if k == "brack" else ")")
+            self.emit({"brack": "]", "curly": "}"}.get(k, ")"))
             return
         if k == "ident":
             self.emit(self.ident(t["v"]))
@@ -120,6 +120,8 @@ class Concretiser:
             self.emit(":")
         elif k == "comma":
             self.emit(",")
+        elif k == "semi":
+            self.emit(";")
         elif k == "string":
             self.emit(self.string(t["v"]))
         elif k == "url":
@@ -361,6 +363,8 @@ def expected_src_positions(e, pos):
     key = tuple(e["prov"])
     k = e["tok"]["k"]
     roles = {"colon": ["c"], "semi": ["s"], "{": ["o"], "}": ["x", "o"], ")": ["x", "t"], "]": ["x", "t"]}.get(k, ["t"])
+    if k == "}" and (key, "o") not in pos:
+        roles = ["x", "t"]           # a {..} block inside a value: its opening bracket is the token's own start
     cands = [pos[(key, r)] for r in roles if (key, r) in pos]
     if not cands or (k in ("[", "]", "ident", "delim", "string", "comma", "at", "(", ")", "importcomment") and (key, "o") in pos):
         cands += [p for (kk, r), p in pos.items() if kk == key]
